@@ -22,6 +22,32 @@ PROPS = {
         rule="timed: 10 scenario kinds × timeouts {120, 200, 300, 420} ms run 12 at a time; route: C02's random route lists with per-read deadline bookkeeping; conn: C01's op sequences judged for the buffer bound; non-trivial = scenario completed; distinct = distinct outputs",
         assumptions=['wall-clock measurements on a loaded machine stay within 300 ms of the modelled instant'],
     ),
+    "C13": dict(
+        lean_modules=["L4.Props.C13", "L4.Expect.C13"],
+        stages=[dict(name="listener", pkg="./layer4/", test="TestVerifListener", files=L4 + ["layer4/verif_route_test.go", "layer4/verif_listener_test.go"], nq=30, nt=600, lean=False)],
+        level_text='Kernel-checked on a transition system of the listener wrapper (accept loop, handler goroutines, connChan with capacity, done, wg, Close, consumer Accept) for every interleaving: a connection is delivered or closed by layer4 at most once in total (closed ones are never delivered), no send on a closed channel, the channel is closed only when no handler is left, and in every terminal state after Close everything accepted has been delivered or closed and no handler remains. The protocol facts the model encodes (close(connChan) only after wg.Wait, close(done) then drain, pipeConnection returns errHijacked, handle closes unless hijacked, Accept selects both channels) are regenerated from listener.go and checked by theorem on every run; the real listener is driven over loopback TCP with tagged clients of five classes, slow consumers and Close at arbitrary points, and judged for exactly-once delivery, intact streams, closure and goroutine drain.',
+        level_note='Trusted: Lean kernel, extractor AST patterns, harness, Go channel / WaitGroup semantics as modelled. Partial: delivery after TLS termination with connection state exposed is not exercised (no TLS in the harness); the histories are judged by oracle, not replayed step by step through the model.',
+        rule='histories of 1-64 concurrent clients (fall-through, partially consumed, terminally consumed, rejected by matcher error, multi-round prefetch), prompt or accept-all-then-read consumers, Close after 0/1/3/10 accepts or after all deliveries, GOMAXPROCS 1-16 (= channel capacity), plus address-only routes with a consumer reading after the matching timeout; non-trivial = history completed; distinct = distinct summaries',
+        assumptions=['connections still in the kernel accept queue are reset when the inner listener closes (counts as closed)'],
+    ),
+    "C08": dict(
+        lean_modules=["L4.Props.C08", "L4.Expect.C08"],
+        stages=[dict(name="listener", pkg="./layer4/", test="TestVerifListener", files=L4 + ["layer4/verif_route_test.go", "layer4/verif_listener_test.go"], nq=30, nt=300, lean=False,
+                     only_sigs=["cross-talk", "delivered-stream", "terminal-stream", "data-race"]),
+                dict(name="lbconc", pkg="./modules/l4proxy/", test="TestVerifLBConcurrent", files=PROXY + ["modules/l4proxy/verif_conc_test.go"], nq=6, nt=40, lean=False),
+                # the race detector as witness search for the access table (both tiers; small counts under -race)
+                dict(name="race-listener", streams=["listener"], pkg="./layer4/", test="TestVerifListener", files=L4 + ["layer4/verif_route_test.go", "layer4/verif_listener_test.go"],
+                     nq=8, nt=60, lean=False, goflags=["-race"], only_sigs=["cross-talk", "delivered-stream", "terminal-stream", "data-race"]),
+                dict(name="race-lb", streams=["lbconc"], pkg="./modules/l4proxy/", test="TestVerifLBConcurrent", files=PROXY + ["modules/l4proxy/verif_conc_test.go"],
+                     nq=2, nt=12, lean=False, goflags=["-race"]),
+                dict(name="race-match", streams=["match"], pkg="./integration/", test="TestVerifMatchParallel", files=INTEG + ["integration/verif_chain_test.go", "integration/verif_match_test.go", "integration/verif_match2_test.go", "integration/verif_match3_test.go", "integration/verif_matchpar_test.go"],
+                     nq=1, nt=4, lean=False, goflags=["-race"], only_sigs=["data-race", "parallel-verdict"]),
+                ],
+        level_text="Kernel-checked for every interleaving of any number of connections: the pooled matching buffer is never in the pool while a live (handling or handed-off) connection refers to it and no connection ever reads bytes written by another's prefetch — for the protocol instantiated from facts regenerated from listener.handle / Server.handle (is the buffer Put on the hijack path?); every access the extractor finds to the shared fields (round-robin counter, peer counters, OpenVPN last digest, packetConn deadline) goes through sync/atomic. Cross-talk search on the real listener wrapper with concurrent tagged streams and slow consumers; exact-turn accounting of concurrent round-robin selections; the Go race detector over the listener, load-balancer and shared-matcher-instance harnesses as witness search.",
+        level_note="Trusted: Lean kernel, extractor (field access classification), harness, sync/atomic and the Go memory model, the race detector. Partial: data-race freedom is proved only for the extracted access table; accesses it does not classify (Connection byte counters, tee's shared Connection, throttle limiter internals) are covered by the race-detector stages only; routing-verdict independence follows from Compile keeping all routing state in per-call locals (not extracted).",
+        rule='listener histories as C13; 4-16 goroutines × 6000-21000 round-robin selections with concurrent peer counter updates; 8 goroutines re-evaluating 160-200 matcher cases (incl. well-formed OpenVPN tls-auth resets on one matcher instance); non-trivial = history completed',
+        assumptions=['a race needs the two accesses to actually overlap in a run to be reported by the detector'],
+    ),
     "C12": dict(
         lean_modules=["L4.Props.C12", "L4.Expect.C12"],
         stages=[
